@@ -75,4 +75,7 @@ def scrypt (pw salt : Bytes) (n r p dkLen : Nat) : Bytes :=
     bytesOfWordsLE (roMix (wordsOfBytesLE ((b.drop (i * 128 * r)).take (128 * r))) r n)
   pbkdf2Sha256 pw mixed 1 dkLen
 
+theorem scrypt_length (pw salt : Bytes) (n r p dkLen : Nat) : (scrypt pw salt n r p dkLen).length = dkLen := by
+  simp [scrypt, pbkdf2Sha256_length]
+
 end FFS.Prim
